@@ -1,8 +1,9 @@
 import PttVerif.Common
 import PttVerif.Gen.NewBoard
+import PttVerif.Model.C07
 /-
 C12 — model of board creation:
-  ptt/board.go        : NewBoard, groupOp                      ptt/stuff.go : is_uBM
+  ptt/board.go        : NewBoard, groupOp                      ptt/stuff.go : is_uBM (model shared with C07)
   ptt/admin.go        : mNewbrd, addBoardRecord
   ptt/board_list.go   : LoadBoardSummary (only its write: newBoardStat ORs BRD_POSTMASK into the shared copy)
   ptt/cache.go        : IsBMCache
@@ -340,23 +341,10 @@ def addBoardRecord (srt : Sorter) (s : State) (r : Rec) : State × M Res :=
 
 /-! ### the request -/
 
-/-- `bytes.Index(s, sub)`. -/
-def indexOf (sub : Bytes) : Bytes → Nat → Option Nat
-  | [], i => if sub.isEmpty then some i else none
-  | x :: xs, i => if sub.isPrefixOf (x :: xs) then some i else indexOf sub xs (i + 1)
-
-/-- `ptt.is_uBM`. -/
-def isUBM (user bm : Bytes) : Bool :=
-  let u := cstr user
-  let b := cstr bm
-  match indexOf u b 0 with
-  | none => false
-  | some i =>
-      if i ≥ b.length then false
-      else
-        let head := if i > 0 then !isAlnum (b.getD (i - 1) 0) else true
-        let tl := if i + u.length < b.length then !isAlnum (b.getD (i + u.length) 0) else true
-        head && tl
+/-- `ptt.is_uBM`: the model of property C07 (`Model/C07.lean`: `bytes.Index` / `Cstrstr`, only the FIRST occurrence
+of the id in the moderator string counts, the bytes around it must not be alphanumeric) is reused, so that its
+theorems (`is_uBM_sound`, …) speak about the permission test of `NewBoard`. -/
+def isUBM (user bm : Bytes) : Bool := C07.isUBM user bm
 
 /-- the title `mNewbrd` builds: class in [0,4), ' ' at 4, the symbol at [5,7), the title from 7 on. -/
 def buildTitle (q : Req) : Bytes :=
